@@ -20,39 +20,73 @@ Theorem C14_no_shared_state :
 Proof. exact gen_no_global_state. Qed.
 
 Section Protocol.
-  Context {E X D C R : Type}.
+  Context {E X D C R I K : Type}.
   Variable api : D -> C -> D * R.
   Variable closed_result : C -> R.
+  Variable pre : I -> list (@msg E X).
+  Variable hnd : D -> I -> D * list (@msg E X).
+  Variable env : D -> K -> option D.
+  Notation cstate := (@cstate E X D C R I K).
+  Notation reachable := (reachable api closed_result pre hnd env).
+  Notation crun := (crun api closed_result pre hnd env).
+  Notation cstep := (cstep api closed_result pre hnd env).
+  Notation reader_step := (reader_step pre hnd).
 
-  (* for EVERY capacity, schedule and consumer pace: received ++ buffered (++ not yet sent) is the stream of events the
-     kernel's notifications stand for, in order; nothing lost or reordered until the reader exits *)
-  Theorem C14_events_fifo : forall cap cf d ls (s : @cstate E X D C R),
-    crun api closed_result cap cf (cinit d) ls = Some s ->
-    (exists dropped, evs_of (delivered ls) = recvd_ev s ++ ev_buf s ++ evs_of (pending_msgs (rd s)) ++ dropped
+  (* THE STREAM of a state: [pre i] then the [post] computed in i's critical section, for every item handled so far in
+     handling order (both recorded in lin), then [pre] of the item begun but not yet handled.  For EVERY capacity,
+     schedule and consumer pace: received ++ buffered ++ still to send (of what is determined) is exactly the events of
+     the stream, in order; nothing lost, duplicated, reordered or invented until the reader exits *)
+  Theorem C14_events_fifo : forall cap cf d ls (s : cstate),
+    crun cap cf (cinit d) ls = Some s ->
+    (exists dropped, evs_of (stream pre s) = recvd_ev s ++ ev_buf s ++ evs_of (pending_msgs (rd s)) ++ dropped
                      /\ (reader_exiting (rd s) = false -> dropped = [])) /\
-    (reader_exiting (rd s) = false -> recvd_ev s ++ ev_buf s ++ evs_of (pending_msgs (rd s)) = evs_of (delivered ls)) /\
-    (recvd_ev s ++ ev_buf s) `prefix_of` evs_of (delivered ls).
-  Proof. exact (events_fifo api closed_result). Qed.
+    (reader_exiting (rd s) = false -> recvd_ev s ++ ev_buf s ++ evs_of (pending_msgs (rd s)) = evs_of (stream pre s)) /\
+    (recvd_ev s ++ ev_buf s) `prefix_of` evs_of (stream pre s).
+  Proof. exact (events_fifo api closed_result pre hnd env). Qed.
+  Theorem C14_errors_fifo : forall cap cf d ls (s : cstate),
+    crun cap cf (cinit d) ls = Some s ->
+    (exists dropped, ers_of (stream pre s) = recvd_er s ++ ers_of (pending_msgs (rd s)) ++ dropped
+                     /\ (reader_exiting (rd s) = false -> dropped = [])) /\
+    (reader_exiting (rd s) = false -> recvd_er s ++ ers_of (pending_msgs (rd s)) = ers_of (stream pre s)) /\
+    recvd_er s `prefix_of` ers_of (stream pre s).
+  Proof. exact (errors_fifo api closed_result pre hnd env). Qed.
 
-  (* two Watchers differing in capacity (and schedule, consumer) that are handed the same notifications have received
-     comparable sequences *)
-  Theorem C14_capacity_independent : forall cap1 cap2 cf1 cf2 d1 d2 ls1 ls2 (s1 s2 : @cstate E X D C R),
-    crun api closed_result cap1 cf1 (cinit d1) ls1 = Some s1 -> crun api closed_result cap2 cf2 (cinit d2) ls2 = Some s2 ->
-    delivered ls1 = delivered ls2 ->
+  (* the stream is determined by the linearisation: the begun items are the handled ones plus at most the current one *)
+  Theorem C14_stream_determined : forall cap cf d ls (s : cstate),
+    crun cap cf (cinit d) ls = Some s ->
+    exists u, started s = handled_items (lin s) ++ u /\ List.length u <= 1 /\
+              (reader_exiting (rd s) = false -> u = cur_items (rd s)) /\
+              stream pre s = lin_msgs pre (lin s) ++ concat (map pre u).
+  Proof. exact (started_shape api closed_result pre hnd env). Qed.
+  (* … is never revised, only extended … *)
+  Theorem C14_stream_grows : forall cap cf d ls1 ls2 (s1 s2 : cstate),
+    crun cap cf (cinit d) ls1 = Some s1 -> crun cap cf s1 ls2 = Some s2 -> stream pre s1 `prefix_of` stream pre s2.
+  Proof. exact (stream_mono api closed_result pre hnd env). Qed.
+  (* … and every notification the kernel handed over is begun in order, or still in the reader's batch *)
+  Theorem C14_items_fifo : forall cap cf d ls (s : cstate),
+    crun cap cf (cinit d) ls = Some s ->
+    exists dropped, delivered ls = started s ++ unstarted (rd s) ++ dropped /\ (reader_exiting (rd s) = false -> dropped = []).
+  Proof. exact (items_fifo api closed_result pre hnd env). Qed.
+
+  (* two Watchers differing in capacity (and schedule, consumer) whose streams are comparable have received comparable
+     sequences *)
+  Theorem C14_capacity_independent : forall cap1 cap2 cf1 cf2 d1 d2 ls1 ls2 (s1 s2 : cstate),
+    crun cap1 cf1 (cinit d1) ls1 = Some s1 -> crun cap2 cf2 (cinit d2) ls2 = Some s2 ->
+    stream pre s1 `prefix_of` stream pre s2 \/ stream pre s2 `prefix_of` stream pre s1 ->
     (recvd_ev s1 `prefix_of` recvd_ev s2 \/ recvd_ev s2 `prefix_of` recvd_ev s1) /\
     (recvd_er s1 `prefix_of` recvd_er s2 \/ recvd_er s2 `prefix_of` recvd_er s1).
-  Proof. exact (capacity_independent api closed_result). Qed.
+  Proof. exact (capacity_independent api closed_result pre hnd env). Qed.
 
   (* a buffered Watcher absorbs events up to its capacity with no consumer present; when full it waits (never drops);
      the consumer then gets the oldest first *)
-  Theorem C14_buffer_absorbs : forall cap cf (s : @cstate E X D C R) e ms rest,
+  Theorem C14_buffer_absorbs : forall cap cf (s : cstate) e ms rest,
     done_closed s = false -> List.length (ev_buf s) < cap -> rd s = RPost (MEv e :: ms) rest ->
     exists s', reader_step cap cf s = Some s' /\ ev_buf s' = ev_buf s ++ [e] /\ rd s' = RPost ms rest.
-  Proof. exact buffer_absorbs. Qed.
-  Theorem C14_buffer_full_waits : forall cap cf (s : @cstate E X D C R) e ms rest,
+  Proof. exact (buffer_absorbs pre hnd). Qed.
+  Theorem C14_buffer_full_waits : forall cap cf (s : cstate) e ms rest,
     List.length (ev_buf s) = cap -> done_closed s = false -> rd s = RPost (MEv e :: ms) rest -> reader_step cap cf s = None.
-  Proof. exact buffer_full_waits. Qed.
-  Theorem C14_oldest_first : forall (s : @cstate E X D C R) e b,
+  Proof. exact (buffer_full_waits pre hnd). Qed.
+  Theorem C14_oldest_first : forall (s : cstate) e b,
     ev_buf s = e :: b -> exists s', consume_ev s = Some s' /\ ev_buf s' = b /\ recvd_ev s' = recvd_ev s ++ [e] /\ rd s' = rd s.
   Proof. exact buffer_full_consume. Qed.
 End Protocol.
@@ -66,6 +100,10 @@ End Protocol.
 Print Assumptions C14_capacities.
 Print Assumptions C14_no_shared_state.
 Print Assumptions C14_events_fifo.
+Print Assumptions C14_errors_fifo.
+Print Assumptions C14_stream_determined.
+Print Assumptions C14_stream_grows.
+Print Assumptions C14_items_fifo.
 Print Assumptions C14_capacity_independent.
 Print Assumptions C14_buffer_absorbs.
 Print Assumptions C14_buffer_full_waits.
